@@ -1,7 +1,7 @@
 (* C01 — No double spend
    Statements only; every proof is `exact <lemma>` into Mint/*.v (model: Mint/Model.v, semantics: Mint/Sem.v). *)
 From Coq Require Import ZArith List Bool.
-From Verif Require Import Model Sem InvDb InvSwap InvMint InvMelt Corollaries Queries.
+From Verif Require Import Model Sem InvDb InvSwap InvMint InvMelt Corollaries Queries Footprint Global GlobalQuote Cuts.
 Import ListNotations.
 Open Scope Z_scope.
 
@@ -25,6 +25,27 @@ Theorem C01_state_of_spent_forever : forall (cfg : config) (w : world) (h : list
        WInv w -> In y (ys_of (d_spent (w_db w))) -> exists wit : Z, state_of (w_db (hrun cfg w h)) y = (y, 2, wit).
 Proof. exact @state_of_spent_forever. Qed.
 Print Assumptions C01_state_of_spent_forever.
+
+Theorem C01_reach_good : forall (cfg : config) (h : list op), Good (reach cfg h).
+Proof. exact @reach_good. Qed.
+Print Assumptions C01_reach_good.
+
+Theorem C01_at_most_once : forall (cfg : config) (h : list op), NoDup (consumed_all h (snd (run_history cfg world0 h))).
+Proof. exact @at_most_once. Qed.
+Print Assumptions C01_at_most_once.
+
+Theorem C01_locked_or_spent_refused : forall (cfg : config) (h : list op) (ins : list proof) (outs : list bmsg) (sg : bool),
+       let w := reach cfg h in
+       (exists p : proof,
+          In p ins /\ (In (p_secret p) (ys_of (d_spent (w_db w))) \/ In (p_secret p) (ys_of (d_pending (w_db w))))) ->
+       (exists (w' : world) (e : err),
+          run (swap (w_mem w) (w_active w) ins outs sg) no_fault w = (w', Done (Err e)) /\ same_but_calls w w') /\
+       (forall id : Z,
+        exists (w' : world) (e : err),
+          run (melt_tokens cfg (w_mem w) id ins) no_fault w = (w', Done (Err e)) /\
+          w_db w' = w_db w /\ w_ln w' = w_ln w).
+Proof. exact @locked_or_spent_refused. Qed.
+Print Assumptions C01_locked_or_spent_refused.
 
 Theorem C01_swap_rejects_represented : forall (mem_ks : list ksrow) (active : Z) (ins : list proof) (outs : list bmsg) (sg : bool) (w : world),
        WInv w ->
@@ -51,9 +72,4 @@ Theorem C01_melt_rejects_represented : forall (cfg : config) (mem_ks : list ksro
          run (melt_tokens cfg mem_ks id ins) no_fault w = (w', Done (Err e)) /\ w_db w' = w_db w /\ w_ln w' = w_ln w.
 Proof. exact @melt_rejects_represented. Qed.
 Print Assumptions C01_melt_rejects_represented.
-
-Theorem C01_swap_keeps_disjoint : forall (mem_ks : list ksrow) (active : Z) (ins : list proof) (outs : list bmsg) (sg : bool) (w : world),
-       WInv w -> Disjoint (w_db w) -> Disjoint (w_db (fst (run (swap mem_ks active ins outs sg) no_fault w))).
-Proof. exact @swap_keeps_disjoint. Qed.
-Print Assumptions C01_swap_keeps_disjoint.
 
